@@ -393,6 +393,16 @@ def search(func, tier, seed, obligation=""):
 _extra_table = extra
 
 
+def option_effects():
+    from contracts import c19_effects
+    bad, n = c19_effects.run()
+    return Item("C19/session/native_option_effects", "refuted" if bad else "bounded-ok", "native-run(bounded)", 0.0, mode="bounded",
+                witness=bad, confirmed=True if bad else None, func=f"{LS}._load_config_file",
+                detail=f"bounded: {len(c19_effects.EFFECT_OPTIONS)} options whose effect shows in an answer (hover, completion, diagnostics, "
+                       f"outline), {n} server runs (one interpreter each): same answers from either channel after initialisation and "
+                       "after a re-parse, the file wins")
+
+
 def extra(repo, reg, tier, seed):  # noqa: F811
     items = _extra_table(repo, reg, tier, seed)
     # wrong value types (bounded, native): the contracts above assume set-valued options are iterable and do
@@ -450,6 +460,7 @@ def extra(repo, reg, tier, seed):  # noqa: F811
         finally:
             ws.close()
             _sys.setrecursionlimit(_limit)
+    items.append(option_effects())
     name = "C19/LangServer._load_config_file/ensures.wrong_value_types"
     if fails:
         items.append(Item(name, "refuted", "native-run(bounded)", 0.0, mode="bounded",
